@@ -856,6 +856,21 @@ impl SubCheck for HttpStrings {
             proptest::string::string_regex("[a-z:/?\\[\\]@.0-9]{0,30}").unwrap(),
             proptest::string::string_regex("(http|https|ftp)?(://)?[a-z0-9.\\[\\]:]{0,20}(:[0-9]{0,7})?(/[a-z/?:]{0,10})?").unwrap(),
             proptest::string::string_regex("\\PC{0,30}").unwrap(),
+            // long host names that are valid UTF-8 but not ASCII, in every alignment of their multi-byte characters: names
+            // around and above the 255-byte limit take the refusal paths (messages, truncation, length arithmetic)
+            (0usize..9, 0usize..5, proptest::sample::select(vec![200usize, 250, 254, 255, 256, 257, 258, 260, 300, 420, 1000]), 0u8..4).prop_map(|(shift, unit, total, form)| {
+                let units = ["\u{e9}", "\u{20ac}", "\u{1d11e}", "a\u{e9}", "\u{df}\u{20ac}b"];
+                let mut host = "x".repeat(shift);
+                while host.len() < total {
+                    host.push_str(units[unit]);
+                }
+                match form {
+                    0 => format!("{}:443", host),
+                    1 => format!("http://{}/", host),
+                    2 => format!("http://{}:8080/p?q", host),
+                    _ => host,
+                }
+            }),
         ];
         (m, t).prop_map(|(method, target)| HttpCase { method, target }).boxed()
     }
